@@ -84,7 +84,7 @@ def make_plan(seed: int, catalogue_keys: list[str], groups: dict[str, list[str]]
     # a few configurations explored in depth (all forms, some duplicated across threads) ...
     for g in rng.sample(group_names, k=min(len(group_names), rng.randint(2, 6))):
         members = groups[g]
-        take = rng.sample(members, k=rng.randint(1, len(members)))
+        take = rng.sample(members, k=rng.randint(1, min(len(members), 14)))  # short, diverse runs beat long uniform ones
         ops.extend(take)
         if rng.random() < 0.5:
             ops.extend(rng.sample(take, k=rng.randint(1, len(take))))  # same op again: races on one key
